@@ -133,6 +133,9 @@ package nbio
 //@ func (*Conn).closeWithErrorWithoutLock
 //@   trusted
 //@   havoc
+//@   requires c.closed
+//@   ensures c.closed
+//@   note teardown runs user callbacks (OnClose): they reach connection state only through its methods, and no method clears the closed flag
 
 //@ func (*Conn).Write
 //@   props C01 C17
@@ -184,3 +187,39 @@ package nbio
 //@     invariant Wired(c) && QueueInv(c)
 //@     invariant pend(c) == old(pend(c)) + sumlen(row(in), off(in), i) - (nwrite - n) && c.left == old(c.left) + sumlen(row(in), off(in), i) - (nwrite - n)
 //@     invariant kSent[c.fd] == old(kSent[c.fd]) + nwrite
+
+//@ func (*Conn).newToWriteFile
+//@   props C01 C17
+//@   safety index slice nil div assert panic make
+//@   requires QueueInv(c) && fd > 0 && remain > 0
+//@   ensures pend: pend(c) == old(pend(c)) + remain                                       // prop C01
+//@   ensures left: c.left == old(c.left)                                                  // prop C17
+//@   ensures inv: QueueInv(c)                                                             // prop C01 C11
+//@   ensures nonempty: len(c.writeList) == old(len(c.writeList)) + 1                      // prop C01
+//@   assigns c.gTail, c.writeList, toWrite.gEnd, toWrite.gBEnd, toWrite.gSeq, toWrite.buf, toWrite.offset, toWrite.fd, toWrite.remain, allelems("*toWrite"), allocates
+//@   at return ghost { t.gSeq = c.gSeq0 + len(c.writeList) - 1; t.gEnd = c.gTail + remain; t.gBEnd = c.gBTail; c.gTail = c.gTail + remain }
+
+// ---- flush: the queue is consumed head first; the kernel is handed exactly the head's unsent part
+//@ func (*Conn).flush$1
+//@   inline
+//@   at call:Write#1 assert handed: base(arg_p) == base(*head.buf) && off(arg_p) == off(*head.buf) + head.offset && len(arg_p) == len(*head.buf) - head.offset && arg_fd == c.fd   // prop C01
+//@   at call:Write#1 ghost { c.gHead = c.gHead + ite(n > 0, n, 0); c.gBHead = c.gBHead + ite(n > 0, n, 0) }
+//@   at call:releaseToWrite#1 ghost { c.gSeq0 = c.gSeq0 + 1 }
+//@ func (*Conn).flush$2
+//@   inline
+//@   at call:Sendfile#1 ghost { c.gHead = c.gHead + ite(written > 0, written, 0) }
+//@   at call:releaseToWrite#1 ghost { c.gSeq0 = c.gSeq0 + 1 }
+//@   loop 1
+//@     invariant holds(c.mux) && !c.closed && Wired(c) && isStream(c) && QueueInv(c) && c.gAcc == kSent[c.fd] + pend(c)
+//@     invariant v != nil && (v.remain > 0 ==> len(c.writeList) > 0 && c.writeList[0] == v && v.buf == nil)
+//@     decreases v.remain
+
+//@ func (*Conn).flush
+//@   props C01 C17 C11
+//@   safety index slice nil div assert panic make lock
+//@   requires Wired(c) && isStream(c) && !holds(c.mux)
+//@   ensures unlocked: !holds(c.mux)                                                      // prop C01
+//@   assigns everything
+//@   loop 1
+//@     invariant holds(c.mux) && !c.closed && Wired(c) && isStream(c) && QueueInv(c) && c.gAcc == kSent[c.fd] + pend(c)
+//@     invariant maxw(c) > 0 ==> c.left <= maxw(c)
